@@ -111,4 +111,77 @@ def nextAt (acts : List Nat) (i : Nat) : Option Nat := acts[i]?
 /-- insertion of job `x` before index `i` -/
 def insertJob (acts : List Nat) (i : Nat) (x : Nat) : List Nat := acts.take i ++ x :: acts.drop i
 
+/-! ## the removal tracker and one round of the insertion heuristic, as machine steps
+
+`JobRemovalTracker` (removal.rs) with its two budgets, and the bookkeeping of `InsertionHeuristic::process`
+(prepare; per round one evaluation result applied; finalize; empty routes dropped). The random choices of the real code
+(shuffle, hit, which job and route the evaluator prefers) are inputs: the functions say what the bookkeeping does with them. -/
+structure Tracker where
+  acts : Nat
+  routes : Nat
+deriving Repr
+
+def jobSize (sizes : List Nat) (j : Job) : Nat := sizes.getD j 1
+def Tracker.isLimit (t : Tracker) : Bool := t.acts == 0 || t.routes == 0
+
+def routeIdx (c : Ctx) (a : Actor) : Option Nat := c.routes.findIdx? (fun r => r.actor == a)
+
+/-- `try_remove_job`: refused without budget, for a locked job and for a job the route does not serve -/
+def tryRemoveJob (sizes : List Nat) (t : Tracker) (c : Ctx) (r : Nat) (j : Job) : Tracker × Ctx × Bool :=
+  if t.acts = 0 then (t, c, false)
+  else match step c (.remove j r) with
+    | some c' => ({ t with acts := t.acts - jobSize sizes j }, c', true)
+    | none => (t, c, false)
+
+def removeAll (c : Ctx) (r : Nat) : List Job → Option Ctx
+  | [] => some c
+  | j :: js => (step c (.remove j r)).bind (fun c' => removeAll c' r js)
+
+/-- `try_remove_route`. `whole` (the route disappeared) and `removed` (the jobs that left it) are what the shuffle
+    and the random hit of the real code produced; `none` = this observation is no behaviour of the model:
+    * without budget nothing happens;
+    * the whole route goes only if it serves something and nothing locked, and it must go when the budget covers it;
+    * otherwise at most `acts` unlocked jobs leave it one by one, and the route budget is charged either way -/
+def tryRemoveRoute (sizes : List Nat) (t : Tracker) (c : Ctx) (r : Nat) (whole : Bool) (removed : List Job) :
+    Option (Tracker × Ctx × Bool) :=
+  if t.routes = 0 ∨ t.acts = 0 then
+    if !whole && removed.isEmpty then some (t, c, false) else none
+  else match c.routes[r]? with
+    | none => none
+    | some rt =>
+      let total := (rt.jobs.map (jobSize sizes)).sum
+      let canWhole := total != 0 && rt.jobs.all (fun j => !c.locked.contains j)
+      if whole then
+        if canWhole then
+          (step c (.dropRoute r)).map (fun c' => ({ acts := t.acts - total, routes := t.routes - 1 }, c', true))
+        else none
+      else if canWhole && decide (total ≤ t.acts) then none
+      else if decide (removed.length ≤ t.acts) then
+        (removeAll c r removed).map (fun c' =>
+          ({ acts := t.acts - (removed.map (jobSize sizes)).sum, routes := t.routes - 1 }, c', !removed.isEmpty))
+      else none
+
+/-- what the evaluator of one round returned -/
+inductive EvalResult where
+  | success (j : Job) (a : Actor)
+  | failure
+deriving Repr
+
+/-- `apply_insertion_result` with all jobs and all routes selected: a success goes into the route of its actor (a
+    fresh one from the registry when the actor drives none), a failure leaves everything pending unassigned -/
+def applyResult (c : Ctx) : EvalResult → Option Ctx
+  | .success j a =>
+    match routeIdx c a with
+    | some r => step c (.insert j r)
+    | none => step c (.insertNew j a)
+  | .failure => step c .finalize
+
+def applyResults (c : Ctx) : List EvalResult → Option Ctx
+  | [] => some c
+  | e :: es => (applyResult c e).bind (fun c' => applyResults c' es)
+
+/-- `InsertionHeuristic::process` for a given sequence of evaluation results -/
+def processWith (c : Ctx) (results : List EvalResult) : Option Ctx :=
+  ((step c .prepare).bind (fun c1 => applyResults c1 results)).bind (fun c2 => (step c2 .finalize).map dropEmpty)
+
 end C04
